@@ -31,8 +31,16 @@ PLACE_OUT = [
     {"status": "TIMEOUT", "exists": True},
     {"status": "TIMEOUT", "exists": False},
 ]
-CANCEL_OUT = [{"status": "SUCCESS"}, {"status": "FAILURE", "error": "BET_TAKEN_OR_LAPSED"}, {"status": "FAILURE", "error": "BET_ACTION_ERROR"}, {"status": "TIMEOUT"}]
-UPDATE_OUT = [{"status": "SUCCESS"}, {"status": "FAILURE", "error": "BET_ACTION_ERROR"}, {"status": "TIMEOUT"}]
+# (error codes after which the bet is still live at the exchange: BET_ACTION_ERROR, MARKET_NOT_OPEN_FOR_BETTING, MARKET_SUSPENDED)
+CANCEL_OUT = [
+    {"status": "SUCCESS"},
+    {"status": "FAILURE", "error": "BET_TAKEN_OR_LAPSED"},
+    {"status": "FAILURE", "error": "BET_ACTION_ERROR"},
+    {"status": "TIMEOUT"},
+    {"status": "FAILURE", "error": "MARKET_NOT_OPEN_FOR_BETTING"},
+    {"status": "FAILURE", "error": "MARKET_SUSPENDED"},
+]
+UPDATE_OUT = [{"status": "SUCCESS"}, {"status": "FAILURE", "error": "BET_ACTION_ERROR"}, {"status": "TIMEOUT"}, {"status": "FAILURE", "error": "MARKET_NOT_OPEN_FOR_BETTING"}]
 REPLACE_OUT = [
     {"status": "SUCCESS"},
     {"status": "SUCCESS", "place": "FAILURE"},
@@ -40,6 +48,7 @@ REPLACE_OUT = [
     {"status": "FAILURE", "error": "BET_TAKEN_OR_LAPSED"},
     {"status": "FAILURE", "error": "BET_ACTION_ERROR"},
     {"status": "TIMEOUT"},
+    {"status": "FAILURE", "error": "MARKET_NOT_OPEN_FOR_BETTING"},
 ]
 OUTS = {"PLACE": PLACE_OUT, "CANCEL": CANCEL_OUT, "UPDATE": UPDATE_OUT, "REPLACE": REPLACE_OUT}
 
@@ -225,6 +234,17 @@ def run_live(case, out):
             out.rule("converged")
             if (bet["status"] == "EXECUTION_COMPLETE") != bool(o.complete):
                 out.v("completeness-differs-after-snapshot", dict(tags, local=o.status.name), bet=bet, case=case)
+        # ---- whatever is still live at the exchange trades on: orders reported complete locally do not move any more (C03 reads the samples)
+        for o in all_orders:
+            if o.status is not None:
+                simrun.sample_order(tr, o, "cb", m)
+        for b in list(ex.bets.values()):
+            if b["sizeRemaining"] > 0:
+                ex.fill(b["betId"], b["sizeRemaining"])
+        w.snapshot()
+        for o in all_orders:
+            if o.status is not None:
+                simrun.sample_order(tr, o, "cb", m)
         out.d("live:%s:%d:%s:%s:%s:%s:%s:%s" % (kind, n, case["out"], case["pre"], case.get("api_error"), case.get("attempts"), case.get("order"), case.get("omit")))
     finally:
         livecases.finish(w)
